@@ -90,6 +90,7 @@ def run(ctx):
     ctx.do(rule_changed_flag)
     ctx.do(rule_flag_returned)
     ctx.do(rule_lexicographic_chains)
+    ctx.do(rule_address_parsers_guarded)
     ctx.do(rule_distribution_recurses)
     ctx.do(rule_distinct_bindings)
     from .pitfalls import rule_groupby_sorted, rule_single_use_iterators
@@ -626,6 +627,31 @@ def rule_distribution_recurses(ctx):
                   "again: an OR operand inside them stays undistributed, so nested patterns are not brought to the normal form",
                   file=fi.module.relpath, line=c.lineno, function=fi.qualname,
                   expected="[self.transform(child)[0] for child in <new nodes>]", found=[short(v, 80) if isinstance(v, ast.AST) else str(v) for v in vals])
+
+
+def rule_address_parsers_guarded(ctx):
+    """The special-value canonicalisation hands string constants of the pattern to the platform's address parsers.  They refuse
+    text that is not an address with OSError -- and text with an embedded NUL character with ValueError.  "On syntactically
+    valid patterns the equivalence test never fails": both are caught at every call (the constant then simply is not
+    canonicalised)."""
+    from ..astutil import in_try_catching
+    run = ctx.run
+    prog = ctx.prog
+    R = "C09.type-guard"
+    n = 0
+    for fi in sorted(prog.functions.values(), key=lambda f: f.id):
+        if not fi.module.name.startswith("stix2.equivalence.pattern.transform"):
+            continue
+        for c in body_walk(fi.node):
+            if isinstance(c, ast.Call) and norm(c.func) in ("socket.inet_aton", "socket.inet_pton"):
+                n += 1
+                ok = all(in_try_catching(c, names=(e_, "Exception", "BaseException")) is not None for e_ in ("OSError", "ValueError"))
+                run.check(ok, R, key(fi.module.relpath, fi.qualname, "address-parser-errors-caught:%s" % norm(c.func)),
+                          "%s is not in a try that catches both OSError (not an address) and ValueError (embedded NUL character): a "
+                          "valid pattern with such a string constant makes the equivalence test raise" % norm(c.func),
+                          file=fi.module.relpath, line=c.lineno, function=fi.qualname, expected="except (OSError, ValueError):", found=short(c, 60))
+    if n < 2:
+        raise AnalysisError("fewer than 2 address parser calls found (%d)" % n)
 
 
 def rule_lexicographic_chains(ctx):
